@@ -392,6 +392,14 @@ func checkFlow(p flowParams, x *verifkit.Exec) []verifkit.Violation {
 		if forceOK && !waited && !x.StepCapHit && !runEndedBeforeForce {
 			a.bad("C12/run-does-not-terminate", "the run did not terminate after a force stop (WaitPipeline never returned)")
 		}
+		if forceOK && waited && p.Restart && a.healthy && !x.StepCapHit {
+			// the run ended cleanly: everything it held is released, the pipeline can be started again
+			for _, e := range a.evs {
+				if e.Comp == "ctl" && e.Kind == "restart.ret" && e.Arg != "nil" {
+					a.bad("C12/start-refused-after-force-stop", "the run ended after the force stop (WaitPipeline returned) but the next Start is refused: %s", e.Arg)
+				}
+			}
+		}
 		if forceOK && waited && !p.Restart && final != "" && final != "Degraded" {
 			a.bad("C12/status-after-force-stop", "final status after a force stop is %s, expected Degraded (failed by force stop)", final)
 		}
